@@ -309,6 +309,88 @@ def byvalue_check(case, ctx):
     return res
 
 
+# ---- string literals as objects: every literal used as a value names a definition of its own element type -----------------
+
+STR_KINDS = {"": ("char", 1), "u8": ("char", 1), "u": ("unsigned short", 2), "U": ("unsigned int", 4), "L": ("WCH", 4)}
+
+
+@st.composite
+def string_units(draw):
+    """Literals over a tiny alphabet with embedded \\0 padding, so that arrays of different element types often have the same
+    byte image (\"a\\0\\0\" and u\"a\" are both 61 00 00 00): the objects may share storage only if the shared definition is aligned
+    for every element type that is read through it."""
+    items = []
+    for _ in range(draw(st.integers(2, 10))):
+        pre = draw(st.sampled_from(["", "", "u8", "u", "U", "L"]))
+        chars = draw(st.sampled_from(["a", "b", "ab", "", "a"]))
+        pad = draw(st.sampled_from([0, 0, 1, 2, 3, 5, 6, 7]))
+        form = draw(st.sampled_from(["ret", "ret", "ptr", "idx"]))
+        items.append([pre, chars, pad, form])
+    return items
+
+
+def strings_check(case, ctx):
+    res = Result()
+    for t in cproc.TARGETS:
+        wch = "unsigned int" if t == "aarch64" else "int"
+        lines = []
+        want = []
+        for k, (pre, chars, pad, form) in enumerate(case):
+            ety, w = STR_KINDS[pre]
+            ety = wch if ety == "WCH" else ety
+            lit = '%s"%s%s"' % (pre, chars, "\\0" * pad)
+            img = b"".join(ord(c).to_bytes(w, "little") for c in chars) + b"\0" * (w * (pad + 1))
+            if form == "ret":
+                lines.append("const void *f%d(void) { return %s; }" % (k, lit))
+            elif form == "ptr":
+                lines.append("const void *p%d = %s;" % (k, lit))
+            else:
+                lines.append("const void *f%d(int i) { return &%s[i]; }" % (k, lit))
+            want.append((k, form, w, img, lit))
+        src = "\n".join(lines) + "\n"
+        p = cproc.cc(ctx, src.encode(), t, "plain", timeout=60)
+        res.n += 1
+        if p.timeout or p.rc != 0:
+            res.fail = dict(sig="", msg="strings/%s: valid unit rejected: %s" % (t, p.err.decode(errors="replace")[:200]), input=src)
+            return res
+        mod = check_il(ctx, p, res, "strings/%s" % t, src.encode(), t, with_clang=False)
+        if mod is None:
+            if res.fail is not None:
+                res.fail["input"] = src
+            return res
+        data = {d.name: d for d in mod.data}
+        funcs = {f.name: f for f in mod.funcs}
+        for k, form, w, img, lit in want:
+            sym, off = None, 0
+            if form == "ptr":
+                rel = qbeil.data_image(data["p%d" % k])[2]
+                if len(rel) == 1:
+                    sym, off = rel[0][2], rel[0][3]
+            else:
+                # the only global a function of these shapes mentions is the literal's object
+                gl = {a.v for b in funcs["f%d" % k].blocks for i in b.insts for a in i.args if a.kind == "glo"}
+                gl |= {b.jump[1].v for b in funcs["f%d" % k].blocks if b.jump and b.jump[0] == "ret" and b.jump[1] is not None and b.jump[1].kind == "glo"}
+                if len(gl) == 1:
+                    sym = gl.pop()
+            d = data.get(sym)
+            if d is None:
+                res.fail = dict(sig="", msg="strings/%s: cannot find the object of literal %s (item %d)" % (t, lit, k), input=src, il=p.out[:4000].decode("latin-1"))
+                return res
+            size, image, _ = qbeil.data_image(d)
+            if (d.align or 1) < w or image[off:off + len(img)] != img:
+                res.fail = dict(sig="", msg="strings/%s: literal %s (element size %d, image %s) is read through $%s, defined with align %s and image %s"
+                                % (t, lit, w, img.hex(), sym, d.align, image.hex()), input=src, il=p.out[:4000].decode("latin-1"))
+                return res
+        imgs = {}
+        for k, form, w, img, lit in want:
+            imgs.setdefault(img, set()).add(w)
+        if any(len(v) > 1 for v in imgs.values()):
+            res.labels.append("same-image-different-element-types")
+            res.keys.append(sha([src, t]))
+    res.sample = {"source": "strings", "literals": [w[4] for w in want][:6]}
+    return res
+
+
 def units_check(case, ctx):
     """Declaration histories of several identifiers (C09's unit generator): tentative definitions, late type completion,
     asm labels, thread-locals: valid module, data size and alignment as clang's."""
@@ -456,6 +538,7 @@ def sources(ctx):
         Source("inits", inits_check, strategy=lambda c: __import__("vlib.gen.initgen", fromlist=["x"]).init_cases(), examples={"quick": 500, "thorough": 20000}),
         Source("byvalue", byvalue_check, strategy=lambda c: __import__("vlib.props.c08", fromlist=["x"]).struct_cases(), examples={"quick": 600, "thorough": 20000}),
         Source("units", units_check, strategy=lambda c: __import__("vlib.props.c09", fromlist=["x"]).units(), examples={"quick": 300, "thorough": 10000}),
+        Source("strings", strings_check, strategy=lambda c: string_units(), examples={"quick": 300, "thorough": 10000}),
         Source("deadcode", dead_check, enum=dead_enum, exhaustive=True),
         Source("special", special_check, enum=special_enum, exhaustive=True),
     ] + gen_sources(ctx)
